@@ -13,6 +13,9 @@
 //                               with TypeFromReflect under the names T::S<i>
 //   @reflraw <go-type> <go-value>   refl without registering the struct types (an unknown struct wraps to a Hash)
 //   @reflanon <go-type> <go-value>  px.WrapReflectedType first (anonymous object types), then refl without registration
+//   @objreg <struct-type> <go-value> every struct type is DECLARED (attributes => {name => derived type, …}; nillable fields and
+//                               tag defaults with a value) and mapped with ImplementationRegistry.RegisterType; Wrap →
+//                               FromReflectedValue → px.New; IsInstance; ReflectTo → ToReflectedValue → DeepEqual
 //   obj construction forms: pos (all attribute values), postrim (without the trailing values that equal their default),
 //                               named (InitHash), full (hash with every attribute); a form is skipped when a single Hash
 //                               argument would be ambiguous
@@ -640,6 +643,8 @@ func exec(c px.Context, op string, args []sx.Sexp) (r core.Result) {
 			r = refl(fc, t, args[1], false)
 		case "obj":
 			r = obj(fc, tyOf(args[0]), args[1])
+		case "objreg":
+			r = objreg(fc, tyOf(args[0]), args[1])
 		}
 	})
 	return
@@ -1168,6 +1173,196 @@ func flatStruct(t *gty) bool {
 	return true
 }
 
+// ---- @objreg: declared object types mapped to structs through the implementation registry -------------------------------
+
+// tagName / tagValue read the two tag items the generator writes, independently of pcore's tag parser
+func tagItem(tag, key string) string {
+	i := strings.Index(tag, key+"=>")
+	if i < 0 {
+		return ""
+	}
+	v := tag[i+len(key)+2:]
+	if j := strings.Index(v, ", "); j >= 0 {
+		v = v[:j]
+	}
+	return strings.TrimSuffix(v, "\"")
+}
+
+func attrNameOf(f gfield) string {
+	if n := tagItem(f.tag, "name"); n != "" {
+		return strings.Trim(n, "'")
+	}
+	return strings.ToLower(f.name[:1]) + f.name[1:]
+}
+
+// declareStructs declares, innermost first, an object type R::S<i> for every struct type in t from a Puppet type
+// declaration (attribute name => derived type of the field, pointer fields and declared defaults with a value) and maps
+// it to the Go type with ImplementationRegistry.RegisterType: instances are plain attribute slices, not Go-backed
+func declareStructs(c px.Context, t *gty, seen map[reflect.Type]px.Type) {
+	if t == nil {
+		return
+	}
+	declareStructs(c, t.key, seen)
+	declareStructs(c, t.elem, seen)
+	for _, f := range t.fields {
+		declareStructs(c, f.t, seen)
+	}
+	if t.kind != "struct" {
+		return
+	}
+	rt := t.rtype()
+	if _, ok := seen[rt]; ok {
+		return
+	}
+	as := []string{}
+	for _, f := range t.fields {
+		ft, err := px.WrapReflectedType(c, f.t.rtype())
+		if err != nil {
+			panic(err)
+		}
+		decl := ft.String()
+		if v := tagItem(f.tag, "value"); v != "" {
+			decl = "{type => " + decl + ", value => " + v + "}"
+		} else if f.t.kind == "ptr" || f.t.kind == "iface" {
+			// a field that can be nil is declared with the value undef: FromReflectedValue leaves nil fields out
+			decl = "{type => " + decl + ", value => undef}"
+		}
+		as = append(as, "'"+attrNameOf(f)+"' => "+decl)
+	}
+	name := "R::S" + strconv.Itoa(len(seen)+1)
+	px.AddTypes(c, types.NamedType("", name, types.Parse("attributes => {"+strings.Join(as, ", ")+"}")))
+	pt := c.ParseType(name)
+	c.ImplementationRegistry().RegisterType(pt, rt)
+	seen[rt] = pt
+}
+
+// walkStructs visits every struct value inside v (through pointers, slices, arrays, maps and fields), innermost last
+func walkStructs(t *gty, v reflect.Value, fn func(st *gty, sv reflect.Value)) {
+	switch t.kind {
+	case "struct":
+		fn(t, v)
+		for i, f := range t.fields {
+			walkStructs(f.t, v.Field(i), fn)
+		}
+	case "ptr":
+		if !v.IsNil() {
+			walkStructs(t.elem, v.Elem(), fn)
+		}
+	case "slice", "array":
+		for i := 0; i < v.Len(); i++ {
+			walkStructs(t.elem, v.Index(i), fn)
+		}
+	case "map":
+		for _, k := range v.MapKeys() {
+			walkStructs(t.elem, v.MapIndex(k), fn)
+		}
+	}
+}
+
+func objreg(c px.Context, t *gty, ve sx.Sexp) core.Result {
+	if t.kind != "struct" {
+		return core.Result{Out: "bad-op", Pred: "FAIL harness-bad-op objreg needs a struct type"}
+	}
+	gv := build(t, ve)
+	rt := t.rtype()
+	tags := []string{"k:objreg"}
+	res := func(out, pred string) core.Result { return core.Result{Out: out, Pred: oneLine(pred), NonTrivial: true, Tags: tags} }
+	na := notReflectable(t) != "" || hasNaN(t, gv)
+	seen := map[reflect.Type]px.Type{}
+	if k, text := safely(func() { declareStructs(c, t, seen) }); k != "" {
+		if na {
+			return res("declare="+k, "n/a")
+		}
+		return res("declare="+k, "FAIL struct-type-fault "+text)
+	}
+	pt := seen[rt]
+	// every struct value inside the value goes through FromReflectedValue / ToReflectedValue of its own type
+	cause := ""
+	walkStructs(t, gv, func(st *gty, sv reflect.Value) {
+		for i, f := range st.fields {
+			if cause == "" && f.t.kind != "struct" && !(f.t.kind == "ptr" && f.t.elem.kind == "struct") {
+				cause = instCause(f.t, sv.Field(i), false, false)
+			}
+		}
+		// FromReflectedValue calls px.New(T, hash of the non-nil fields): when the first attribute itself accepts that hash
+		// the single Hash argument is ambiguous by design of the object constructor (DESIGN §11) — outside the property
+		if k, _ := safely(func() {
+			es := []*types.HashEntry{}
+			for i, f := range st.fields {
+				sf := sv.Field(i)
+				if sf.Kind() == reflect.Ptr {
+					sf = sf.Elem()
+				}
+				if !sf.IsValid() {
+					continue
+				}
+				switch sf.Kind() {
+				case reflect.Slice, reflect.Map, reflect.Interface:
+					if sf.IsNil() {
+						continue
+					}
+				}
+				es = append(es, types.WrapHashEntry2(attrNameOf(f), px.WrapReflected(c, sf)))
+			}
+			attrs := seen[st.rtype()].(px.ObjectType).AttributesInfo().Attributes()
+			if len(attrs) > 0 && px.IsInstance(attrs[0].Type(), types.WrapHash(es)) {
+				na = true
+				tags = append(tags, "ctor-ambiguous")
+			}
+		}); k != "" {
+			tags = append(tags, "entries-fault")
+		}
+	})
+	// struct → FromReflectedValue → px.New(type, hash of the non-nil fields)
+	var w px.Value
+	if k, text := safely(func() { w = px.Wrap(c, gv.Interface()) }); k != "" {
+		if na {
+			return res("wrap="+k, "n/a")
+		}
+		if cause != "" {
+			return res("wrap="+k, "FAIL "+cause+" Wrap: "+text)
+		}
+		return res("wrap="+k, "FAIL objreg-wrap-fault Wrap: "+text)
+	}
+	out := encVal(w)
+	inst := px.IsInstance(pt, w)
+	out += " | inst=" + sx.B(inst)
+	// object → ToReflectedValue → struct
+	back := reflect.New(rt).Elem()
+	bk, btext := safely(func() { c.Reflector().ReflectTo(w, back) })
+	if bk != "" {
+		out += " | back=" + bk + " eq=f"
+		if na {
+			return res(out, "n/a")
+		}
+		return res(out, "FAIL "+backFaultClass(t, gv, btext)+" ReflectTo: "+btext)
+	}
+	eq := reflect.DeepEqual(gv.Interface(), back.Interface())
+	out += " | back=" + encGo(t, back) + " eq=" + sx.B(eq)
+	if na {
+		return res(out, "n/a")
+	}
+	if !eq {
+		cl := diffClass(t, gv, back)
+		walkStructs(t, gv, func(st *gty, sv reflect.Value) {
+			for i, f := range st.fields {
+				// a nil pointer field is left out by FromReflectedValue, so the attribute takes its declared default
+				if f.t.kind == "ptr" && tagItem(f.tag, "value") != "" && sv.Field(i).IsNil() {
+					cl = "nil-ptr-takes-declared-default"
+				}
+			}
+		})
+		if cl == "" {
+			cl = "roundtrip-differs"
+		}
+		return res(out, "FAIL "+cl+" "+encGo(t, gv)+" came back as "+encGo(t, back))
+	}
+	if !inst {
+		return res(out, "FAIL type-rejects-wrapped "+pt.String()+" rejects "+out)
+	}
+	return res(out, "ok")
+}
+
 func fullHash(attrs []px.Attribute, pos []px.Value) px.OrderedMap {
 	es := make([]*types.HashEntry, len(attrs))
 	for i, a := range attrs {
@@ -1468,6 +1663,7 @@ func gen(g *core.G) {
 			// structs are not modelled yet: implementation-only test ops
 			g.Emit("@refl " + t.sexp().String() + " " + v)
 			if t.kind == "struct" {
+				g.Emit("@objreg " + t.sexp().String() + " " + v)
 				if flatStruct(t) {
 					g.Emit("obj " + t.sexp().String() + " " + v) // modelled
 				} else {
